@@ -24,12 +24,13 @@ CONSTANTS V,        \* interface variables
 None == "none"
 \* requirement value of a variable: holds its original value, or per method the replacement id (0 = not mocked)
 Orig == [orig |-> TRUE, f |-> [x \in {} |-> 0]]
-VARIABLES ivar, cache, ctx, nctx, heap, nobj, alive, objOf, lastKind, owner, exp, hist
+VARIABLES ivar, cache, ctx, nctx, heap, nobj, alive, objOf, lastKind, owner, okind, exp, hist
 \* objOf[b][v][m]: object referenced by builder b's method mocker (m.imp) for (v, m)
 \* lastKind[b][v][m]: kind of the last instruction given through builder b's handle for (v, m)
 \* owner[v]: the builder that mocks v ("" = nobody yet). Two builders on the SAME variable are outside the
 \* statement (the second builder backs up and replaces the first one's fabricated value), cf. C02/C11.
-vars == <<ivar, cache, ctx, nctx, heap, nobj, alive, objOf, lastKind, owner, exp, hist>>
+\* okind[o]: how replacement o answers: "apply"/"stub" for every argument, "when" only for the argument it was given (7)
+vars == <<ivar, cache, ctx, nctx, heap, nobj, alive, objOf, lastKind, owner, okind, exp, hist>>
 
 Meths == UNION {M[v] : v \in V}
 Init == /\ ivar = [v \in V |-> "orig"]
@@ -40,6 +41,7 @@ Init == /\ ivar = [v \in V |-> "orig"]
         /\ alive = [b \in B |-> TRUE]
         /\ objOf = [b \in B |-> [v \in V |-> [m \in Meths |-> 0]]]
         /\ owner = [v \in V |-> ""]
+        /\ okind = <<>>
         /\ lastKind = [b \in B |-> [v \in V |-> [m \in Meths |-> "none"]]]
         /\ exp = [v \in V |-> Orig]
         /\ hist = <<>>
@@ -54,9 +56,9 @@ Mock(b, v, m, kind) ==
     /\ "Mock" \in Ops /\ alive[b] /\ m \in M[v] /\ owner[v] \in {"", b}
     /\ owner' = [owner EXCEPT ![v] = b]
     /\ LET fresh == cache[b][v] = 0 \/ ctx[cache[b][v]].canceled IN
-       IF ~fresh /\ kind = "stub" /\ lastKind[b][v][m] = "stub"
+       IF ~fresh /\ kind \in {"stub", "when"} /\ lastKind[b][v][m] \in {"stub", "when"}
        THEN /\ exp' = [exp EXCEPT ![v] = IF @.orig THEN @ ELSE [@ EXCEPT !.f[m] = -1]]
-            /\ UNCHANGED <<ivar, cache, ctx, nctx, heap, nobj, alive, objOf, lastKind>>
+            /\ UNCHANGED <<ivar, cache, ctx, nctx, heap, nobj, alive, objOf, lastKind, okind>>
             /\ Log([op |-> "Mock", b |-> b, v |-> v, m |-> m, kind |-> kind, id |-> nobj, obs |-> ObsVar(exp'), panic |-> ""])
        ELSE
        LET c == IF fresh THEN nctx + 1 ELSE cache[b][v] IN
@@ -67,7 +69,7 @@ Mock(b, v, m, kind) ==
        /\ nctx' = IF fresh THEN nctx + 1 ELSE nctx
        /\ ctx' = IF fresh THEN Append(ctx, c1) ELSE [ctx EXCEPT ![c] = c1]
        /\ cache' = [cache EXCEPT ![b][v] = c]
-       /\ nobj' = o /\ heap' = heap \cup {o}
+       /\ nobj' = o /\ heap' = heap \cup {o} /\ okind' = Append(okind, kind)
        /\ objOf' = [objOf EXCEPT ![b][v][m] = o]
        /\ lastKind' = IF fresh THEN [lastKind EXCEPT ![b][v] = [x \in Meths |-> IF x = m THEN kind ELSE "none"]]
                       ELSE [lastKind EXCEPT ![b][v][m] = kind]
@@ -84,13 +86,13 @@ Reset(b) ==
        /\ ctx' = [i \in 1..Len(ctx) |-> IF i \in C THEN [ctx[i] EXCEPT !.canceled = TRUE] ELSE ctx[i]]
        /\ ivar' = [v \in V |-> IF cache[b][v] # 0 /\ ctx[cache[b][v]].backup = "taken" THEN "orig" ELSE ivar[v]]
        /\ exp' = [v \in V |-> IF cache[b][v] # 0 /\ ctx[cache[b][v]].backup = "taken" THEN Orig ELSE exp[v]]
-    /\ UNCHANGED <<cache, nctx, heap, nobj, alive, objOf, lastKind, owner>>
+    /\ UNCHANGED <<cache, nctx, heap, nobj, alive, objOf, lastKind, owner, okind>>
     /\ Log([op |-> "Reset", b |-> b, obs |-> ObsVar(exp'), panic |-> ""])
 
 \* the test drops every reference to the builder and its handles
 Drop(b) == /\ "Drop" \in Ops /\ alive[b]
            /\ alive' = [alive EXCEPT ![b] = FALSE]
-           /\ UNCHANGED <<ivar, cache, ctx, nctx, heap, nobj, objOf, lastKind, owner, exp>>
+           /\ UNCHANGED <<ivar, cache, ctx, nctx, heap, nobj, objOf, lastKind, owner, okind, exp>>
            /\ Log([op |-> "Drop", b |-> b, obs |-> ObsVar(exp), panic |-> ""])
 
 \* a collection: objects reachable from a live builder's mockers, or from a context that a variable still holds
@@ -99,28 +101,29 @@ Reachable == {objOf[b][v][m] : b \in {x \in B : alive[x]}, v \in V, m \in Meths}
              \cup UNION {UNION {ctx[cache[b][v]].keep : v \in {y \in V : cache[b][y] # 0}} : b \in {x \in B : alive[x]}}
 GC == /\ "GC" \in Ops
       /\ heap' = heap \cap Reachable
-      /\ UNCHANGED <<ivar, cache, ctx, nctx, nobj, alive, objOf, lastKind, owner, exp>>
+      /\ UNCHANGED <<ivar, cache, ctx, nctx, nobj, alive, objOf, lastKind, owner, okind, exp>>
       /\ Log([op |-> "GC", obs |-> ObsVar(exp), panic |-> ""])
 
 \* the context the variable's fabricated itab belongs to
 CtxOf(v) == CHOOSE i \in 1..Len(ctx) : ctx[i].var = v /\ ~ctx[i].canceled /\ \A j \in 1..Len(ctx) : (ctx[j].var = v /\ ~ctx[j].canceled) => j <= i
-ImplCall(v, m) == IF ivar[v] = "orig" THEN "orig"
+Answer(o, a) == IF okind[o] = "when" /\ a # 7 THEN "panic:nocond" ELSE "repl:" \o ToString(o)
+ImplCall(v, m, a) == IF ivar[v] = "orig" THEN "orig"
                   ELSE LET o == ctx[CtxOf(v)].fun[m] IN
-                       IF o = 0 THEN "panic:notimpl" ELSE IF o \in heap THEN "repl:" \o ToString(o) ELSE "crash"
-ReqCall(v, m) == IF exp[v].orig THEN "orig"
+                       IF o = 0 THEN "panic:notimpl" ELSE IF o \in heap THEN Answer(o, a) ELSE "crash"
+ReqCall(v, m, a) == IF exp[v].orig THEN "orig"
                  ELSE IF exp[v].f[m] = -1 THEN "free"
-                 ELSE IF exp[v].f[m] = 0 THEN "panic:notimpl" ELSE "repl:" \o ToString(exp[v].f[m])
-Call(v, m) == /\ "Call" \in Ops /\ m \in M[v]
-              /\ Log([op |-> "Call", v |-> v, m |-> m, res |-> ReqCall(v, m), ires |-> ImplCall(v, m), obs |-> ObsVar(exp), panic |-> ""])
-              /\ UNCHANGED <<ivar, cache, ctx, nctx, heap, nobj, alive, objOf, lastKind, owner, exp>>
+                 ELSE IF exp[v].f[m] = 0 THEN "panic:notimpl" ELSE Answer(exp[v].f[m], a)
+Call(v, m, a) == /\ "Call" \in Ops /\ m \in M[v]
+              /\ Log([op |-> "Call", v |-> v, m |-> m, a |-> a, res |-> ReqCall(v, m, a), ires |-> ImplCall(v, m, a), obs |-> ObsVar(exp), panic |-> ""])
+              /\ UNCHANGED <<ivar, cache, ctx, nctx, heap, nobj, alive, objOf, lastKind, owner, okind, exp>>
 
-Finish == Len(hist) = MaxOps /\ hist' = Append(hist, [op |-> "End"]) /\ UNCHANGED <<ivar, cache, ctx, nctx, heap, nobj, alive, objOf, lastKind, owner, exp>>
+Finish == Len(hist) = MaxOps /\ hist' = Append(hist, [op |-> "End"]) /\ UNCHANGED <<ivar, cache, ctx, nctx, heap, nobj, alive, objOf, lastKind, owner, okind, exp>>
 Next == \/ Finish
         \/ /\ Len(hist) < MaxOps
-           /\ \/ \E b \in B, v \in V, m \in Meths, k \in {"apply", "stub"} : Mock(b, v, m, k)
+           /\ \/ \E b \in B, v \in V, m \in Meths, k \in {"apply", "stub", "when"} : Mock(b, v, m, k)
               \/ \E b \in B : Reset(b) \/ Drop(b)
               \/ GC
-              \/ \E v \in V, m \in Meths : Call(v, m)
+              \/ \E v \in V, m \in Meths, a \in {7, 8} : Call(v, m, a)
 Spec == Init /\ [][Next]_vars
 
 Last == hist[Len(hist)]
@@ -128,6 +131,6 @@ CallsConform == (Len(hist) > 0 /\ Last.op = "Call" /\ Last.res # "free") => Last
 VarsConform == \A v \in V : exp[v].orig = (ivar[v] = "orig")
 \* every object a callable stub jumps through is alive
 NoDangling == \A v \in V : ivar[v] = "fake" => \A m \in M[v] : LET o == ctx[CtxOf(v)].fun[m] IN o = 0 \/ o \in heap
-View == <<ivar, cache, ctx, nctx, heap, nobj, alive, objOf, lastKind, owner, exp, Len(hist)>>
+View == <<ivar, cache, ctx, nctx, heap, nobj, alive, objOf, lastKind, owner, okind, exp, Len(hist)>>
 Emit == Len(hist) = MaxOps + 1 => PrintT(ToJson(SubSeq(hist, 1, MaxOps)))
 =============================================================================
